@@ -34,7 +34,7 @@ NA = {
 }
 ALL = ["C%02d" % i for i in range(1, 21)]
 ENGINES = {
- "procsim": (["C01","C02","C03","C13","C14"], "deterministic simulator around the real guardian processor (synctest fake clock, scripted peers, real badger store)"),
+ "procsim": (["C01","C02","C03","C13","C14","C17"], "deterministic simulator around the real guardian processor (synctest fake clock, scripted peers, real badger store); mesh mode: several real processors over a simulated network"),
  "p2psim": (["C03"], "scripted byzantine gossip against the real heartbeat / observation-request verifiers and GuardianSetState"),
  "dbsim": (["C12"], "model-based operation sequences with clean restarts against the real db.Database and public RPC server"),
  "crashsim": (["C16"], "kill-point simulator: sparse snapshots of the live badger directory plus synthesised torn in-flight writes, reopened with the real db.Open"),
@@ -43,6 +43,7 @@ ENGINES = {
  "spysim": (["C20"], "synctest bubble around the real spy server with fake gRPC streams that stall and disconnect"),
  "alphsim": (["C08","C09"], "simulated Alephium full node (HTTP RoundTripper) under the real watcher, parked requests, reorgs, RPC faults"),
  "evmsim": (["C10"], "simulated EVM JSON-RPC node (in-proc go-ethereum rpc.Server) under the real watcher"),
+ "gstsim": (["C19"], "seeded cooperative scheduler over a yield-instrumented scratch copy of the explorer's guardian-set cache; race-detector pass on the unmodified file"),
  "explsim": (["C19"], "explorer gossip consumer + guardian-set cache against a simulated chain; statement-level interleavings of lookups and appends"),
 }
 checks = []
